@@ -66,7 +66,7 @@ def run(tier, replay=None):
     res.assumptions = ["oneTBB semantics of global_control (active value = minimum over live controls, default = hardware concurrency) — trusted, exercised by the correspondence",
                        "oneTBB sizes its worker pool by the active value (observed by thread counting, not proved)"]
     lean_ok = lean_gate(res, "Parmcb.Props.C20", THEOREMS)
-    binary, log = compile_harness("h_knob.cpp")
+    binary, log = compile_harness("h_knob.cpp", flags=(os.path.join(VERIF, "harness", "h_knob_tu2.cpp"),), opt="-O2")      # two translation units
     if binary is None:
         res.violation("harness does not compile against the working tree", {"kind": "compile", "log": log[-3000:]}, found=False)
         return res.finish()
